@@ -26,7 +26,10 @@ def parseKT (s : String) : Option KT :=
   | 'a' :: r => (String.ofList r).toNat?.map (⟨.a, ·⟩)
   | _ => none
 
-/-- all keys of one dictionary have the width of the key type, where the fast forms equal ltSigned / ltUnsigned -/
+/-- The dictionary state of the driver holds TYPED keys, as Go does: an integer key is kept as the 64-bit image of the Go
+value (so that values outside the declared width — `Uint7(200)` — are distinct from their truncations), byte-string
+and address keys as their encoding. `Compare` on the typed keys: all of one width, where the fast forms equal
+ltSigned / ltUnsigned. -/
 def KT.lt (kt : KT) : Key → Key → Bool := if kt.fam = .i then ltSignedFast else ltUnsignedFast
 
 def parseInt? (s : String) : Option Int :=
@@ -36,8 +39,8 @@ def parseInt? (s : String) : Option Int :=
 
 def parseKey (kt : KT) (s : String) : Option Key :=
   match kt.fam with
-  | .u => s.toNat?.map (Bits.natToBits kt.n)
-  | .i => (parseInt? s).map (Bits.intToBits kt.n)
+  | .u => s.toNat?.map (Bits.natToBits 64)
+  | .i => (parseInt? s).map (Bits.intToBits 64)
   | _ => (hexArg s).bind fun bs => if bs.length * 8 = kt.n then some (Bits.bytesToBits bs) else none
 
 /-- Go decodes the key into its typed form and the harness prints that: AddressWithWorkchain keeps only an int8 of
@@ -49,6 +52,30 @@ def normKey (kt : KT) (k : Key) : Key :=
     let wc8 := (wc + 128) % 256 - 128
     Bits.intToBits 32 wc8 ++ k.drop 32
   | _ => k
+
+/-- Marshal(cell, key): typed key → encoded bits (model `encUintKey` / `encIntKey`) -/
+def encKey (kt : KT) (t : Key) : Outcome Key :=
+  match kt.fam with
+  | .u => encUintKey kt.n (Bits.bitsToNat t)
+  | .i => encIntKey kt.n (Bits.bitsToInt t)
+  | _ => .ok t
+
+/-- Unmarshal of a key: encoded bits → typed key -/
+def decKey (kt : KT) (k : Key) : Key :=
+  match kt.fam with
+  | .u => Bits.natToBits 64 (Bits.bitsToNat k)
+  | .i => Bits.intToBits 64 (Bits.bitsToInt k)
+  | _ => normKey kt k
+
+def encAll (kt : KT) {α : Type} : List (Key × α) → Outcome (List (Key × α))
+  | [] => .ok []
+  | (t, v) :: rest =>
+    match encKey kt t with
+    | .ok k => match encAll kt rest with
+      | .ok r => .ok ((k, v) :: r)
+      | e => e
+    | .err e => .err e
+    | .panic p => .panic p
 
 def showKey (kt : KT) (k : Key) : String :=
   match kt.fam with
@@ -146,7 +173,21 @@ def withTypes (a : List String) (f : KT → VT → List String → Option String
 
 /-- HashmapE.UnmarshalTLB followed by the key type's own decoding (lossy only for AddressWithWorkchain, see normKey) -/
 def decodeE (kt : KT) (vt : VT) (c : Cell) : Outcome (List (Key × Val)) :=
-  omap (unmarshalE (codecOf vt) kt.n c) fun d => d.map fun kv => (normKey kt kv.1, kv.2)
+  omap (unmarshalE (codecOf vt) kt.n c) fun d => d.map fun kv => (decKey kt kv.1, kv.2)
+
+/-- HashmapE.MarshalTLB of the typed dictionary: every key is marshalled first (an error there fails the whole call) -/
+def marshalT (kt : KT) (vt : VT) (d : List (Key × Val)) : Outcome Cell :=
+  match encAll kt d with
+  | .ok w => marshalE (codecOf vt) kt.n w
+  | .err e => .err e
+  | .panic p => .panic p
+
+def marshalBareT (kt : KT) (vt : VT) (d : List (Key × Val)) : Outcome Cell :=
+  if d.isEmpty then marshal (codecOf vt) kt.n []
+  else match encAll kt d with
+  | .ok w => marshal (codecOf vt) kt.n w
+  | .err e => .err e
+  | .panic p => .panic p
 
 def applyPuts (kt : KT) (d : List (Key × Val)) (ops : List (Key × Val)) : List (Key × Val) :=
   ops.foldl (fun d kv => put kt.lt d kv.1 kv.2) d
@@ -172,7 +213,7 @@ def opsC05 : List (String × Handler) := [
   -- Put in the given order, Marshal the HashmapE, dump the cell tree
   ("hm.build", fun a => withTypes a fun kt vt rest => do
     let ops ← rest.mapM (parseEntry kt vt)
-    pure (outStr (omap (marshalE (codecOf vt) kt.n (applyPuts kt [] ops)) cellText))),
+    pure (outStr (omap (marshalT kt vt (applyPuts kt [] ops)) cellText))),
   -- Unmarshal a HashmapE from a cell table, Items()
   ("hm.decode", fun a => withTypes a fun kt vt rest =>
     match rest with
@@ -183,12 +224,12 @@ def opsC05 : List (String × Handler) := [
   -- bare tlb.Hashmap: Put, Marshal into a fresh cell / Unmarshal from the root cell
   ("hmb.build", fun a => withTypes a fun kt vt rest => do
     let ops ← rest.mapM (parseEntry kt vt)
-    pure (outStr (omap (marshal (codecOf vt) kt.n (applyPuts kt [] ops)) cellText))),
+    pure (outStr (omap (marshalBareT kt vt (applyPuts kt [] ops)) cellText))),
   ("hmb.decode", fun a => withTypes a fun kt vt rest =>
     match rest with
     | [t] => do
       let c ← parseCell t
-      pure (outStr (omap (omap (unmarshal (codecOf vt) kt.n c) fun d => d.map fun kv => (normKey kt kv.1, kv.2))
+      pure (outStr (omap (omap (unmarshal (codecOf vt) kt.n c) fun d => d.map fun kv => (decKey kt kv.1, kv.2))
         (showEntries kt vt)))
     | _ => none),
   -- Unmarshal, then Get for each listed key
@@ -211,8 +252,24 @@ def opsC05 : List (String × Handler) := [
       pure (outStr (do
         let d ← decodeE kt vt c
         let d' := applyPuts kt d ops
-        let c' ← marshalE (codecOf vt) kt.n d'
+        let c' ← marshalT kt vt d'
         pure (showEntries kt vt d' ++ " | " ++ cellText c')))
+    | _ => none),
+  -- NewHashmapE(keys, values) with slices of any two lengths: Marshal, Items()
+  ("hm.new", fun a => withTypes a fun kt vt rest =>
+    match rest with
+    | nk :: more => do
+      let nk ← nk.toNat?
+      let keys ← (more.take nk).mapM (parseKey kt)
+      let vals ← (more.drop nk).mapM (parseVal vt)
+      let wire : Outcome (List Key) := omap (encAll kt (keys.map fun k => (k, ()))) fun l => l.map (·.1)
+      let m : Outcome Cell := match wire with
+        | .ok w => marshalSlicesE (codecOf vt) kt.n w vals
+        | .err e => .err e
+        | .panic p => .panic p
+      let items : Outcome (List (Key × Val)) := itemsSlices keys vals
+      pure ("ok M=" ++ (outStr (omap m cellText)).replace " " ":" ++ " I=" ++
+        (outStr (omap items (showEntries kt vt))).replace " " ":")
     | _ => none),
   -- HashmapAugE[K, Uint32, Uint32]: Unmarshal, Keys()/Values()
   ("hma.decode", fun
